@@ -160,6 +160,8 @@ int enc_run(const enccfg_t *c, encres_t *r){
         if(c->rm2_reservoir_bits_secs>0) a.bitrate_limit_reservoir_bits=(long)(rate_bits*c->rm2_reservoir_bits_secs);
         a.bitrate_limit_reservoir_bias=c->rm2_bias;
         if(c->rm2_damping>0) a.bitrate_average_damping=c->rm2_damping;
+        if(c->rm2_avg_off) a.bitrate_average_kbps=0;
+        if(c->rm2_max_kbps>0){ a.bitrate_limit_max_kbps=c->rm2_max_kbps; if(c->rm2_reservoir_bits_secs>0) a.bitrate_limit_reservoir_bits=(long)(c->rm2_max_kbps*1000*c->rm2_reservoir_bits_secs); }
         vorbis_encode_ctl(&vi,OV_ECTL_RATEMANAGE2_SET,&a);
       }
     }
